@@ -89,7 +89,7 @@ DT = {"f32": torch.float32, "f64": torch.float64}
 H_OK = {"f32": 3e-3, "f64": 1e-6}
 F64 = torch.float64
 
-TARGETS = ["tridiag"] * 11 + ["root"] * 4 + ["root_inv"] * 3 + ["diag"] * 2
+TARGETS = ["tridiag"] * 10 + ["root"] * 4 + ["root_inv"] * 5 + ["diag"] * 2
 BATCHES = [(), (), (), (), (2,), (2,), (3,), (1,), (2, 1), (1, 2), (1, 1)]
 
 _RATIO = {}  # largest observed error / bound per sub-check and dtype (evidence only)
@@ -434,7 +434,7 @@ def cases(draw, tier):
         c = _nest(members, list(batch)) if batch else members[0]
         case["init"] = {"basis": kind, "c": c}
     if target == "root_inv" and (m > 1 or (kind != "random" and draw(st.booleans()))):
-        t = draw(st.integers(1, 2))
+        t = draw(st.sampled_from([1, 2, 2, 3]))  # (several test vectors x several probes: the probe-selection layout)
         tvs = []
         for _ in range(cnt):
             vals = draw(st.lists(st.sampled_from(VALS), min_size=n * t, max_size=n * t))
@@ -726,7 +726,11 @@ def run_consumer(case, A_lib, Aref, V_lib, an, labels):
         dist = [max(float((obs[b] - grams[ci * nb + b]).abs().max()) for b in range(nb)) for ci in range(m)]
         chosen = min(range(m), key=lambda ci: dist[ci])
         kap = max(c[0] for c in conds)
-        slack = 1e-3 * min(resid) + 1e3 * k * u * kap * float(tvr.norm())
+        # + the rounding error of evaluating A (G tv) - tv itself, n u ||A|| ||G|| ||tv|| (in the library's dtype): it decides
+        # the comparison when G = Q S^-1 Q^T is huge (nearly singular projected matrix)
+        gmax = max(float(g.abs().max()) for g in grams)
+        amax = max(float(Ab[b].abs().max()) for b in range(nb))
+        slack = 1e-3 * min(resid) + 1e3 * k * u * kap * float(tvr.norm()) + 64.0 * n * n * u * amax * gmax * float(tvr.norm())
         if math.isfinite(kap) and all(math.isfinite(r) for r in resid) and resid[chosen] > min(resid) + slack:
             _fail("probe_choice", target, "value", "returned inverse root belongs to start column %d with test residual %.6g, but column %d has %.6g" % (chosen, resid[chosen], resid.index(min(resid)), min(resid)))
         labels.append("probe:chosen_%s" % ("first" if chosen == 0 else "other"))
